@@ -105,9 +105,9 @@ int main(int argc, char** argv) {
         for (int rep = 0; rep < reps; ++rep) {
           ++n_eval;
           bj::object act{{"n", inp.n}, {"d_set", c.at("d_set")}, {"p", pr.p}, {"q", pr.q}, {"mini", pr.mini}, {"maxi", pr.maxi},
-                         {"dmax", pr.dmax}, {"form", form}, {"guaranteed", e.at("guaranteed")}};
+                         {"dmax", pr.dmax}, {"form", form}, {"reuse", rep % 2 == 1}, {"guaranteed", e.at("guaranteed")}};
           vf::crash_ctx().where = "sparse " + bj::serialize(act);
-          Cx got = run_sparse(inp, pr, form);
+          Cx got = run_sparse(inp, pr, form, rep % 2 == 1);   // every second repetition reuses the object (first a call with dim_max 1)
           bj::array diffs;
           if (!got.exception.empty()) diffs.push_back(bj::object{{"path", "exception"}, {"exp", nullptr}, {"got", got.exception}});
           for (auto& p : got.problems) diffs.push_back(bj::object{{"path", "output"}, {"exp", nullptr}, {"got", p}});
